@@ -120,7 +120,7 @@ class RngSeam:
                 sub = _nth_combination(N, k, c)
                 o = self.ch.choose(2, "subset-order")
                 idx = list(sub) if o == 0 else list(sub)[::-1]
-                self.prob *= Fraction(1, nsub)      # order answers are not part of the probability
+                self.prob *= Fraction(1, 2 * nsub)  # each subset with probability 1/nsub, split evenly over the two representative orders
         out = pop[idx]
         if scalar:
             return out[0]
